@@ -51,6 +51,9 @@ func (m *Mutex) Lock() {
 		s.BlockOn(t, "mutex")
 	}
 	m.locked = true
+	if s.PreemptInLocks() {
+		simrt.Yield() // a goroutine can be descheduled while it holds a lock
+	}
 }
 
 func (m *Mutex) TryLock() bool {
@@ -135,6 +138,9 @@ func (m *RWMutex) Lock() {
 	}
 	m.wpending--
 	m.writer = true
+	if s.PreemptInLocks() {
+		simrt.Yield()
+	}
 }
 
 func (m *RWMutex) TryLock() bool {
@@ -198,6 +204,9 @@ func (m *RWMutex) RLock() {
 		s.BlockOn(t, "rwmutex.RLock")
 	}
 	m.readers++
+	if s.PreemptInLocks() {
+		simrt.Yield()
+	}
 }
 
 func (m *RWMutex) TryRLock() bool {
